@@ -1164,4 +1164,54 @@ theorem geod_inverse_no_uninit (sel : Nat) (hs : sel < 512) (br : InvBranch) (o 
   genInverseG_no_uninit cfgG rfl _ br _ o ((mem_writtenInverse_iff geod _ o).mp w).2 (geod_lengthmask_canonical sel hs)
 
 
+/-! ### the two models of the third point agree -/
+
+/-- the kernels of the state machine read off the symbolic dataflow model of `GenPosition` (values are `Option T`,
+    `none` = NaN): `arcOf s` = the returned `a12` of `GenPosition(false, s, 0u, …)`, `distOf a` = the term assigned to
+    `s12` by `GenPosition(true, a, DISTANCE, …)` -/
+def symKern (e : Enum) (exact : Bool) (caps : Nat) (bigf : Bool) : LineState.Kern (Option T) :=
+  { nan := none
+    arcOf := fun s => s.bind fun t => Mask.genPositionRet e exact caps false bigf t
+    distOf := fun a => a.bind fun t => genPosition e exact caps e.distance true bigf t .s12 }
+
+/-- **the executed state machine and the symbolic dataflow model describe the same `SetDistance` / `SetArc`**: run with the
+    symbolic kernels, the state machine's third point is the one `Mask.setDistance` / `Mask.setArc` (the model of the
+    theorems `third_point_distance`, `third_point_arc`, `inverseLine_third_point`) produce -/
+theorem state_machine_matches_dataflow (e : Enum) (he : e = geod ∨ e = geodx) (exact bigf : Bool) (caps : Nat) (a0 s0 : Option T) (x : T) :
+    let K := symKern e exact caps bigf
+    let L : Mask.Line := { exact := exact, caps := caps }
+    (LineState.setDistance e K ⟨lineCaps e caps, a0, s0⟩ (some x)).s13 = (Mask.setDistance e bigf L x).s13 ∧
+    (LineState.setDistance e K ⟨lineCaps e caps, a0, s0⟩ (some x)).a13 = (Mask.setDistance e bigf L x).a13 ∧
+    (LineState.setArc e K ⟨lineCaps e caps, a0, s0⟩ (some x)).a13 = (Mask.setArc e bigf L x).a13 ∧
+    (LineState.setArc e K ⟨lineCaps e caps, a0, s0⟩ (some x)).s13 = (Mask.setArc e bigf L x).s13 := by
+  intro K L
+  have g := guards_spec e he caps
+  have hl : locatable e caps false = caps.testBit distanceInBit := by
+    have := locatable_iff e he caps false
+    cases h : locatable e caps false <;> cases h2 : caps.testBit distanceInBit <;> simp_all
+  refine ⟨rfl, ?_, rfl, ?_⟩
+  · show LineState.genPositionRet e K (lineCaps e caps) (some x) = Mask.genPositionRet e exact caps false bigf x
+    unfold LineState.genPositionRet
+    rw [g.1]
+    by_cases hb : caps.testBit distanceInBit = true
+    · rw [if_pos hb]; rfl
+    · rw [if_neg hb]
+      have : locatable e caps false = false := by rw [hl]; simpa using hb
+      simp [Mask.genPositionRet, this]; rfl
+  · show LineState.genPositionS12 e K (lineCaps e caps) (some x) none = genPosition e exact caps e.distance true bigf x .s12
+    unfold LineState.genPositionS12
+    rw [g.2.2]
+    by_cases hb : caps.testBit Out.s12.bit = true
+    · rw [if_pos hb]; rfl
+    · rw [if_neg hb]
+      have hw : Out.s12 ∉ written e caps e.distance true := by
+        rw [written_spec e he]; intro hh
+        rw [lineCaps_testBit e he caps Out.s12.bit (Or.inl rfl)] at hh; exact hb hh.2.2
+      have h2 : ¬ ((genPosition e exact caps e.distance true bigf x .s12).isSome = true) :=
+        fun hh => hw ((genPosition_isSome_iff e exact caps e.distance true bigf x .s12).mp hh)
+      cases h3 : genPosition e exact caps e.distance true bigf x .s12 with
+      | none => rfl
+      | some t => rw [h3] at h2; simp at h2
+
+
 end GeoVerif.Props.C12
